@@ -20,6 +20,7 @@ type Clause struct {
 	Label string
 	Props []string
 	Scope []string // `@in:name`: the clause applies only in top-level functions with a parameter of that name
+	Trusted bool  // `@trusted`: assumed at call sites, not checked against the body (listed as an assumption)
 	Text  string
 	Expr  ast.Expr
 	File  string
@@ -191,7 +192,9 @@ func (cs *ContractSet) parseFile(pkgPath, file string) error {
 					rest = ""
 				}
 				for _, p := range strings.Split(strings.TrimPrefix(tok, "@"), ",") {
-					if strings.HasPrefix(p, "in:") {
+					if p == "trusted" {
+						cl.Trusted = true
+					} else if strings.HasPrefix(p, "in:") {
 						cl.Scope = append(cl.Scope, strings.TrimPrefix(p, "in:"))
 					} else if p != "" {
 						cl.Props = append(cl.Props, p)
